@@ -72,6 +72,14 @@ func checkC12(c *Ctx, r *Report) {
 		for _, iv := range eng.Invokes {
 			add(iv.Tpl, "invoke:"+iv.Partial+"{"+iv.Hash+"}@"+iv.Scope, en, iv.Line)
 		}
+		// output positions with their escape mode: {{x}} is HTML-escaped by raymond, {{{x}}} is raw
+		for _, em := range eng.Emits {
+			mode := "escaped"
+			if em.Unescaped {
+				mode = "raw"
+			}
+			add(em.Tpl, "emit:"+em.Expr+"("+mode+")", en, em.Line)
+		}
 	}
 	var tpls []string
 	for t := range prof {
